@@ -1,14 +1,22 @@
 #!/bin/bash
+# re-run the check of every kept seeded change against a scratch worktree of /repo's HEAD carrying exactly that patch
+# (VERIF_REPO points the checks at it; /repo itself is not touched).  usage: tools_reseed.sh [scratch worktree] [name filter]
 export VERIF_EVIDENCE_DIR=$(mktemp -d /tmp/evid.XXXX)   # runs on patched trees must not overwrite the committed evidence
-# re-run the checks of every kept seeded change against /repo with the patch applied (and undo it)
+WT=${1:-/tmp/reseed_wt}
+FILTER=${2:-}
 cd /verif
+if [ ! -d $WT ]; then git -C /repo worktree add --detach $WT HEAD >/dev/null 2>&1; ln -s /repo/_build $WT/_build; fi
+git -C $WT checkout -q --detach main; git -C $WT checkout -q -- .
+export VERIF_REPO=$WT
 for d in seeded/*/; do
   n=$(basename $d)
   [ -f $d/patch.diff ] || continue
+  case "$n" in R*) continue;; esac
+  [ -n "$FILTER" ] && case "$n" in *$FILTER*) ;; *) continue;; esac
   p=$(python3 -c "import json;print(json.load(open('$d/meta.json')).get('property','') )" 2>/dev/null)
   [ -n "$p" ] || { continue; }
-  ( cd /repo && git apply /verif/$d/patch.diff ) || { echo "$n: patch does not apply"; continue; }
-  ./check $p > /tmp/reseed.out 2>&1; rc=$?
-  echo "$n: check $p rc=$rc $(grep -c '^VIOLATION' /tmp/reseed.out) violations; $(grep '^VIOLATION' /tmp/reseed.out | head -2 | sed 's/.*replay=.verif.replays.//' | tr '\n' ' ')$(grep '^UNDECIDED' /tmp/reseed.out | head -1 | cut -c1-160)"
-  git -C /repo checkout -- .
+  ( cd $WT && git apply /verif/$d/patch.diff 2>/dev/null || git apply -3 /verif/$d/patch.diff 2>/dev/null ) || { echo "$n: patch does not apply to the current HEAD"; git -C $WT checkout -q -- . ; git -C $WT reset -q --hard; continue; }
+  ./check $p > /tmp/reseed_$n.out 2>&1; rc=$?
+  echo "$n: check $p rc=$rc $(grep -c '^VIOLATION' /tmp/reseed_$n.out) violations; $(grep '^VIOLATION' /tmp/reseed_$n.out | head -2 | sed 's/.*replay=.verif.replays.//' | tr '\n' ' ')$(grep '^UNDECIDED' /tmp/reseed_$n.out | head -1 | cut -c1-160)"
+  git -C $WT checkout -q -- . ; git -C $WT reset -q --hard
 done
